@@ -1,13 +1,363 @@
 /-
-Props/C06.lean — property C06 (work in progress: theorems are added as they are proved).
+Props/C06.lean — property C06: mapping matrices conserve flux and encode the claimed interpolation.
+
+All theorems are about the `Impl` layer of Model/Mapper.lean (the loop transliterations executed by the
+driver against the Python) and quantify over every table / mask / sub-size map / coordinate set /
+mesh shape, over any ordered field `α` (instantiated at `ℚ`, which contains every double, in the
+non-vacuity examples).  Helper lemmas live in Proofs/Mapper*.lean.
+
+Clauses (DESIGN.md §5 C06):
+  a  entry formula of `mapping_matrix_from`
+  b  rows ≥ 0 and sum to one
+  c  Delaunay: area-ratio weights = barycentric coordinates in vertex order; outside the hull the
+     first nearest vertex with weight 1
+  d  rectangular: the index is the cell containing the point; `overlay_grid` strictly contains the grid
+  e  the unique (sparse) tables encode the same matrix; keys distinct; `pix_lengths` = their number
+  f  neighbour tables: rectangular = 4-connectivity (symmetric); Delaunay = share-a-simplex (symmetric)
+Not proved (inputs with a contract, checked by the harness on every case): Qhull's `simplices`,
+`find_simplex`, `vertex_neighbor_vertices`.
 -/
 import Model.Mapper
+import Proofs.Mapper
+import Proofs.MapperUnique
+import Proofs.MapperDelaunay
+import Proofs.MapperRect
+import Proofs.MapperRectNeighbors
+import Proofs.MapperEndToEnd
 
 open Model
 
 namespace C06
 
-/-- sanity: a 2×2 rectangular mesh's table is the 4-connectivity table -/
-theorem rectNeighbors_2x2 : Impl.rectNeighbors 2 2 = Spec.rectNeighbors 2 2 := by decide
+variable {α : Type} [Field α]
+
+/-! ## (a) dense accumulation -/
+
+/-- (a0) `mapping_matrix_from` returns `total_mask_pixels` rows of `pixels` columns. -/
+theorem mappingMatrix_shape (idx : List (List Int)) (sizes : List Nat) (wts : List (List α))
+    (pixels total : Nat) (slimFor : List Nat) (frac : List α) :
+    (Impl.mappingMatrix idx sizes wts pixels total slimFor frac).length = total ∧
+    ∀ r ∈ Impl.mappingMatrix idx sizes wts pixels total slimFor frac, r.length = pixels :=
+  mappingMatrix_isMat idx sizes wts pixels total slimFor frac
+
+/-- (a) entry (i,p) is the sum, over the sub-pixels whose image pixel is `i`, of `sub_fraction[i]`
+    times the sum of the interpolation weights of that sub-pixel's mappings to source pixel `p`.
+    Hypotheses = the index ranges numpy would otherwise wrap or reject. -/
+theorem mappingMatrix_entry (idx : List (List Int)) (sizes : List Nat) (wts : List (List α))
+    (pixels total : Nat) (slimFor : List Nat) (frac : List α)
+    (hslim : ∀ s ∈ slimFor, s < total)
+    (hidx : ∀ sub < slimFor.length, ∀ c < sizes.getD sub 0,
+      ((idx.getD sub []).getD c 0).toNat < pixels) (i p : Nat) :
+    ((Impl.mappingMatrix idx sizes wts pixels total slimFor frac).getD i []).getD p 0
+      = (((List.range slimFor.length).filter fun sub => slimFor.getD sub 0 == i).map fun sub =>
+          frac.getD i 0 *
+            (((List.range (sizes.getD sub 0)).filter fun c =>
+                ((idx.getD sub []).getD c 0).toNat == p).map fun c => (wts.getD sub []).getD c 0).sum).sum :=
+  Model.mappingMatrix_entry idx sizes wts pixels total slimFor frac hslim hidx i p
+
+/-- (a') the slim index of every sub-pixel produced by the over-sampler's double loop over the mask is
+    "pixel i repeated sub_size_i² times", whatever the mask. -/
+theorem slimForSubSlim_blocks (m : Mask) (sub : List Nat) (h : sub.length = Impl.totalPixels m) :
+    Impl.slimForSubSlim m sub
+      = (List.range sub.length).flatMap fun i => List.replicate (sub.getD i 0 * sub.getD i 0) i :=
+  slimForSubSlim_eq m sub h
+
+/-! ## (b) rows are non-negative and sum to one -/
+
+section ordered
+variable [LinearOrder α] [IsStrictOrderedRing α]
+
+/-- (b) if every sub-pixel's used weights are ≥ 0 and sum to 1 (true of both mesh types, clauses c/d)
+    and pixel i owns `sub_size_i²` sub-pixels weighted `1/sub_size_i²`, every row of the mapping
+    matrix is entrywise ≥ 0 and sums to exactly 1 — for every per-pixel sub-size map. -/
+theorem mappingMatrix_rows_sum_one (subs : List Nat) (hpos : ∀ s ∈ subs, 1 ≤ s)
+    (idx : List (List Int)) (sizes : List Nat) (wts : List (List α)) (pixels : Nat)
+    (hidx : ∀ sub < (Spec.slimForSubSlim subs).length, ∀ c < sizes.getD sub 0,
+      ((idx.getD sub []).getD c 0).toNat < pixels)
+    (hw0 : ∀ sub < (Spec.slimForSubSlim subs).length, ∀ c < sizes.getD sub 0,
+      0 ≤ (wts.getD sub []).getD c 0)
+    (hw1 : ∀ sub < (Spec.slimForSubSlim subs).length,
+      ((List.range (sizes.getD sub 0)).map fun c => (wts.getD sub []).getD c 0).sum = 1) :
+    let M := Impl.mappingMatrix idx sizes wts pixels subs.length (Spec.slimForSubSlim subs)
+      (subs.map Impl.subFraction)
+    (∀ r ∈ M, ∀ x ∈ r, 0 ≤ x) ∧ (∀ i < subs.length, (M.getD i []).sum = 1) :=
+  rows_of_tables subs hpos idx sizes wts pixels hidx hw0 hw1
+
+/-! ## (c) Delaunay interpolation -/
+
+/-- (c1) for a non-degenerate triangle `v0 v1 v2` and a point of the closed triangle — a convex
+    combination `l0·v0 + l1·v1 + l2·v2` — the absolute-area-ratio weights of
+    `pixel_weights_delaunay_from` are exactly `[l0, l1, l2]`: the barycentric coordinates, weight k
+    attached to vertex k (no permutation).  Hence they are ≥ 0, sum to 1 and reproduce the point. -/
+theorem barycentric_weights (v0 v1 v2 : α × α) (l0 l1 l2 : α)
+    (h0 : 0 ≤ l0) (h1 : 0 ≤ l1) (h2 : 0 ≤ l2) (hs : l0 + l1 + l2 = 1)
+    (hD : v0.1 * v1.2 + v1.1 * v2.2 + v2.1 * v0.2 - v1.1 * v0.2 - v2.1 * v1.2 - v0.1 * v2.2 ≠ 0) :
+    Impl.baryWeights v0 v1 v2
+        (l0 * v0.1 + l1 * v1.1 + l2 * v2.1, l0 * v0.2 + l1 * v1.2 + l2 * v2.2)
+      = [l0, l1, l2] :=
+  baryWeights_combo v0 v1 v2 l0 l1 l2 h0 h1 h2 hs hD
+
+/-- (c2) every point is the affine combination of a non-degenerate triangle's vertices whose
+    coefficients are the signed-area ratios (they sum to 1); so "in the closed triangle" is exactly
+    "all three ratios ≥ 0", the hypothesis of (c1). -/
+theorem barycentric_coordinates_exist (v0 v1 v2 p : α × α) (hD : det3 v0 v1 v2 ≠ 0) :
+    p = combo v0 v1 v2 (det3 v1 v2 p / det3 v0 v1 v2) (-(det3 v0 v2 p) / det3 v0 v1 v2)
+          (det3 v0 v1 p / det3 v0 v1 v2)
+    ∧ det3 v1 v2 p / det3 v0 v1 v2 + -(det3 v0 v2 p) / det3 v0 v1 v2
+        + det3 v0 v1 p / det3 v0 v1 v2 = 1 :=
+  combo_signed_ratios v0 v1 v2 p hD
+
+/-- (c3) `np.argmin`, as used for points outside the hull, returns an index of the list whose value is
+    ≤ every value and < every earlier value: the first nearest vertex. -/
+theorem nearest_vertex_first_argmin (d : List α) (hd : d ≠ []) :
+    Impl.argminFirst d < d.length ∧
+    ∃ m, d[Impl.argminFirst d]? = some m ∧ (∀ (j : Nat) x, d[j]? = some x → m ≤ x) ∧
+      (∀ (j : Nat) x, j < Impl.argminFirst d → d[j]? = some x → m < x) :=
+  ⟨argminFirst_lt d hd, argminFirst_spec d hd⟩
+
+/-- (c4) `MapperDelaunay.pix_sub_weights`, located sub-pixel: given that Qhull put sub-pixel `i` in
+    simplex `s = [a,b,c]` and the point lies in that closed triangle, row `i` is the vertex triple,
+    size 3, with the barycentric coordinates in the same order. -/
+theorem delaunay_row_located (grid mesh : List (α × α)) (simplexFor : List Int)
+    (simplices : List (List Int)) (i : Nat) (hi : i < grid.length)
+    (s : Nat) (hs : simplexFor.getD i (-1) = (s : Int)) (a b c : Nat)
+    (hrow : simplices.getD s [-1, -1, -1] = [(a : Int), (b : Int), (c : Int)])
+    (l0 l1 l2 : α) (h0 : 0 ≤ l0) (h1 : 0 ≤ l1) (h2 : 0 ≤ l2) (hsum : l0 + l1 + l2 = 1)
+    (hD : det3 (mesh.getD a (0, 0)) (mesh.getD b (0, 0)) (mesh.getD c (0, 0)) ≠ 0)
+    (hp : grid.getD i (0, 0)
+      = combo (mesh.getD a (0, 0)) (mesh.getD b (0, 0)) (mesh.getD c (0, 0)) l0 l1 l2) :
+    (Impl.delaunayPixSubWeights grid mesh simplexFor simplices).mappings.getD i []
+        = [(a : Int), (b : Int), (c : Int)] ∧
+    (Impl.delaunayPixSubWeights grid mesh simplexFor simplices).sizes.getD i 0 = 3 ∧
+    (Impl.delaunayPixSubWeights grid mesh simplexFor simplices).weights.getD i [] = [l0, l1, l2] :=
+  delaunayPixSubWeights_located grid mesh simplexFor simplices i hi s hs a b c hrow l0 l1 l2 h0 h1 h2
+    hsum hD hp
+
+/-- (c5) unlocated sub-pixel (`find_simplex = -1`, outside the hull): one mapping, to the first
+    nearest vertex, weight 1. -/
+theorem delaunay_row_outside (grid mesh : List (α × α)) (simplexFor : List Int)
+    (simplices : List (List Int)) (i : Nat) (hi : i < grid.length)
+    (hs : simplexFor.getD i (-1) = -1) :
+    (Impl.delaunayPixSubWeights grid mesh simplexFor simplices).mappings.getD i []
+        = [Int.ofNat (Impl.argminFirst (mesh.map (Impl.sqDist (grid.getD i (0, 0))))), -1, -1] ∧
+    (Impl.delaunayPixSubWeights grid mesh simplexFor simplices).sizes.getD i 0 = 1 ∧
+    (Impl.delaunayPixSubWeights grid mesh simplexFor simplices).weights.getD i [] = [1, 0, 0] :=
+  delaunayPixSubWeights_outside grid mesh simplexFor simplices i hi hs
+
+/-! ## (d) rectangular cells -/
+
+/-- (d1) `grid_pixel_indexes_2d_slim_from` on a mesh geometry: a point whose real-valued pixel
+    coordinates lie in `[0,H)×[0,W)` gets the flattened index `yp·W + xp` of the half-open cell that
+    contains it (rows counted downward from the top edge, columns rightward from the left edge).
+    `trunc` is Python's `int()`; only its behaviour on non-negative reals (floor) is used. -/
+theorem rect_cell_contains_point (trunc : α → Int) (ht : IsTrunc trunc) (g : Impl.RectGeom α)
+    (p : α × α) (hh : 1 ≤ g.h) (hw : 1 ≤ g.w) (hsy : 0 < g.sy) (hsx : 0 < g.sx)
+    (hy0 : 0 ≤ (Impl.pixelCoord g p).1) (hy1 : (Impl.pixelCoord g p).1 < (g.h : α))
+    (hx0 : 0 ≤ (Impl.pixelCoord g p).2) (hx1 : (Impl.pixelCoord g p).2 < (g.w : α)) :
+    ∃ yp xp : Nat, yp < g.h ∧ xp < g.w ∧
+      Impl.gridPixelIndexes trunc g [p] = [((yp * g.w + xp : Nat) : Int)] ∧
+      yTop g - ((yp : α) + 1) * g.sy < p.1 ∧ p.1 ≤ yTop g - (yp : α) * g.sy ∧
+      xLeft g + (xp : α) * g.sx ≤ p.2 ∧ p.2 < xLeft g + ((xp : α) + 1) * g.sx :=
+  rect_cell_contains trunc ht g p hh hw hsy hsx hy0 hy1 hx0 hx1
+
+/-- (d2) the mesh `overlay_grid` lays over a grid with a positive buffer has positive pixel scales and
+    strictly contains every grid point: all pixel coordinates are in `(0,H)×(0,W)` — the hypothesis of
+    (d1), so no point of the grid can fall in a wrong or out-of-range cell, for any shape. -/
+theorem overlay_grid_contains (h w : Nat) (hh : 1 ≤ h) (hw : 1 ≤ w) (grid : List (α × α)) (b : α)
+    (hb : 0 < b) (p : α × α) (hp : p ∈ grid) :
+    0 < (Impl.overlayGrid h w grid b).sy ∧ 0 < (Impl.overlayGrid h w grid b).sx ∧
+    0 < (Impl.pixelCoord (Impl.overlayGrid h w grid b) p).1 ∧
+    (Impl.pixelCoord (Impl.overlayGrid h w grid b) p).1 < (h : α) ∧
+    0 < (Impl.pixelCoord (Impl.overlayGrid h w grid b) p).2 ∧
+    (Impl.pixelCoord (Impl.overlayGrid h w grid b) p).2 < (w : α) :=
+  overlay_contains h w hh hw grid b hb p hp
+
+/-! ## (b)+(c)+(d) end to end: flux conservation of the two mappers -/
+
+/-- (bd) rectangular mapper, end to end: for every mesh shape, every grid, every positive buffer and
+    every per-pixel sub-size map (≥ 1), the mapping matrix built from
+    `MapperRectangular.pix_sub_weights` on the mesh `overlay_grid` lays over that grid has all
+    entries ≥ 0 and every row summing to one (and every index is a valid cell: no out-of-range). -/
+theorem rect_mapper_rows_sum_one (trunc : α → Int) (ht : IsTrunc trunc) (h w : Nat) (hh : 1 ≤ h)
+    (hw : 1 ≤ w) (grid : List (α × α)) (b : α) (hb : 0 < b) (subs : List Nat)
+    (hpos : ∀ s ∈ subs, 1 ≤ s) (hlen : grid.length = (Spec.slimForSubSlim subs).length) :
+    let psw := Impl.rectPixSubWeights trunc (Impl.overlayGrid h w grid b) grid
+    let M := Impl.mappingMatrix psw.mappings psw.sizes psw.weights (h * w) subs.length
+      (Spec.slimForSubSlim subs) (subs.map Impl.subFraction)
+    (∀ r ∈ M, ∀ x ∈ r, 0 ≤ x) ∧ (∀ i < subs.length, (M.getD i []).sum = 1) :=
+  rect_mapper_rows trunc ht h w hh hw grid b hb subs hpos hlen
+
+/-- (bc) Delaunay mapper, end to end, under Qhull's contract `QhullLocates` (each sub-pixel is either
+    unlocated, or located in a non-degenerate simplex of mesh vertices whose closed triangle contains
+    it): all entries ≥ 0 and every row sums to one — points outside the hull included. -/
+theorem delaunay_mapper_rows_sum_one (grid mesh : List (α × α)) (hmesh : mesh ≠ [])
+    (simplexFor : List Int) (simplices : List (List Int)) (subs : List Nat)
+    (hpos : ∀ s ∈ subs, 1 ≤ s) (hlen : grid.length = (Spec.slimForSubSlim subs).length)
+    (hq : ∀ i < grid.length, QhullLocates grid mesh simplexFor simplices i) :
+    let psw := Impl.delaunayPixSubWeights grid mesh simplexFor simplices
+    let M := Impl.mappingMatrix psw.mappings psw.sizes psw.weights mesh.length subs.length
+      (Spec.slimForSubSlim subs) (subs.map Impl.subFraction)
+    (∀ r ∈ M, ∀ x ∈ r, 0 ≤ x) ∧ (∀ i < subs.length, (M.getD i []).sum = 1) :=
+  delaunay_mapper_rows grid mesh hmesh simplexFor simplices subs hpos hlen hq
+
+end ordered
+
+/-- (d3) the `int()` the driver executes on exact rationals satisfies the contract used in (d1). -/
+theorem trunc_contract_rat : IsTrunc (α := ℚ) Model.truncRat := isTrunc_truncRat
+
+/-! ## (e) the sparse unique tables encode the same matrix -/
+
+/-- (e1) reading row `ip` of (`data_to_pix_unique`, `data_weights`, `pix_lengths`) the way the w-tilde
+    routines do — `for k < pix_lengths[ip]: out[data_to_pix_unique[ip,k]] += data_weights[ip,k]` —
+    gives exactly entry (ip, p) of `mapping_matrix_from`, for every source pixel `p`. -/
+theorem unique_encodes_mapping_matrix (subs : List Nat) (idx : List (List Int)) (sizes : List Nat)
+    (wts : List (List α)) (P : Nat)
+    (hidx : ∀ sub < (Spec.slimForSubSlim subs).length, ∀ c < sizes.getD sub 0,
+      ((idx.getD sub []).getD c 0).toNat < P)
+    (ip : Nat) (hip : ip < subs.length) (p : Nat) :
+    Spec.denseRowOfUnique
+        ((Impl.uniqueFrom subs.length idx sizes wts P subs).1.getD ip [])
+        ((Impl.uniqueFrom subs.length idx sizes wts P subs).2.1.getD ip [])
+        ((Impl.uniqueFrom subs.length idx sizes wts P subs).2.2.getD ip 0) p
+      = ((Impl.mappingMatrix idx sizes wts P subs.length (Spec.slimForSubSlim subs)
+          (subs.map Impl.subFraction)).getD ip []).getD p 0 :=
+  unique_dense_eq subs idx sizes wts P hidx ip hip p
+
+/-- (e2) the first `pix_lengths[ip]` entries of row `ip` of `data_to_pix_unique` are pairwise distinct
+    and are exactly the source pixels that data pixel `ip`'s sub-pixels map to, so `pix_lengths[ip]`
+    is the number of distinct ones; everything after is padding (-1 / 0). -/
+theorem unique_rows_distinct (subs : List Nat) (idx : List (List Int)) (sizes : List Nat)
+    (wts : List (List α)) (P : Nat)
+    (hidx : ∀ sub < (Spec.slimForSubSlim subs).length, ∀ c < sizes.getD sub 0,
+      ((idx.getD sub []).getD c 0).toNat < P)
+    (ip : Nat) (hip : ip < subs.length) :
+    ∃ keys : List Nat,
+      keys.Nodup ∧
+      (∀ q, q ∈ keys ↔ q ∈ (Spec.entries idx sizes wts (blockStart subs ip)
+          (subs.getD ip 0 * subs.getD ip 0)).map (·.1)) ∧
+      (Impl.uniqueFrom subs.length idx sizes wts P subs).2.2.getD ip 0 = keys.length ∧
+      ((Impl.uniqueFrom subs.length idx sizes wts P subs).1.getD ip []).take keys.length
+        = keys.map Int.ofNat ∧
+      (∀ x ∈ ((Impl.uniqueFrom subs.length idx sizes wts P subs).1.getD ip []).drop keys.length,
+        x = -1) ∧
+      (∀ x ∈ ((Impl.uniqueFrom subs.length idx sizes wts P subs).2.1.getD ip []).drop keys.length,
+        x = 0) :=
+  unique_keys subs idx sizes wts P hidx ip hip
+
+/-! ## (f) neighbour tables -/
+
+/-- (f1) `rectangular_neighbors_from`, modelled phase by phase (corners, four edges, centre), yields for
+    every shape with H, W ≥ 2 (the code requires ≥ 3) exactly the table whose row k lists the
+    4-neighbours of pixel k in ascending order (up, left, right, down), padded with -1, and whose
+    size column is their number. -/
+theorem rectNeighbors_eq_spec (H W : Nat) (hH : 2 ≤ H) (hW : 2 ≤ W) :
+    Impl.rectNeighbors H W = Spec.rectNeighbors H W :=
+  Model.rectNeighbors_eq_spec H W hH hW
+
+/-- (f2) that table is the 4-connectivity: pixel (y',x') is listed for pixel (y,x) iff the two differ
+    by one step along exactly one axis. -/
+theorem rect_neighbors_four_connectivity (H W y x y' x' : Nat) (hx : x < W) (hx' : x' < W)
+    (hy : y < H) (hy' : y' < H) :
+    ((y' * W + x' : Nat) : Int) ∈ Spec.fourNeighbors H W (y * W + x)
+      ↔ (y' = y ∧ (x' + 1 = x ∨ x + 1 = x')) ∨ (x' = x ∧ (y' + 1 = y ∨ y + 1 = y')) :=
+  mem_fourNeighbors_flat H W y x y' x' hx hx' hy hy'
+
+/-- (f3) and it is symmetric. -/
+theorem rect_neighbors_symmetric (H W k j : Nat) (hW : 0 < W) (hk : k < H * W) (hj : j < H * W) :
+    (j : Int) ∈ Spec.fourNeighbors H W k ↔ (k : Int) ∈ Spec.fourNeighbors H W j :=
+  fourNeighbors_symm H W k j hW hk hj
+
+/-- (f4) the neighbour relation derived from a simplex list: `j` is listed for `k` iff `j ≠ k` and
+    some simplex contains both (two vertices of a triangle span one of its edges); lists ascending. -/
+theorem delaunay_neighbors_share_edge (n : Nat) (simplices : List (List Nat)) (k j : Nat)
+    (hk : k < n) :
+    (j ∈ (Spec.neighborsFromSimplices n simplices).getD k []
+      ↔ j < n ∧ j ≠ k ∧ ∃ s ∈ simplices, k ∈ s ∧ j ∈ s) ∧
+    ((Spec.neighborsFromSimplices n simplices).getD k []).Pairwise (· < ·) :=
+  ⟨mem_neighborsFromSimplices n simplices k j hk, neighborsFromSimplices_sorted n simplices k⟩
+
+/-- (f5) that relation is symmetric. -/
+theorem delaunay_neighbors_symmetric (n : Nat) (simplices : List (List Nat)) (k j : Nat)
+    (hk : k < n) (hj : j < n) :
+    j ∈ (Spec.neighborsFromSimplices n simplices).getD k []
+      ↔ k ∈ (Spec.neighborsFromSimplices n simplices).getD j [] :=
+  neighborsFromSimplices_symm n simplices k j hk hj
+
+/-- (f6) `Mesh2DDelaunay.neighbors` copies Qhull's CSR slices: row k is
+    `indices[indptr[k]:indptr[k+1]]` followed only by -1, and `sizes[k] = indptr[k+1] - indptr[k]`.
+    (That the slices equal the edge relation (f4) is Qhull's contract, checked by the harness.) -/
+theorem delaunay_neighbors_from_csr (indptr indices : List Nat) (n k : Nat) (hk : k < n) :
+    (Impl.delaunayNeighbors indptr indices n).2.getD k 0
+        = indptr.getD (k + 1) 0 - indptr.getD k 0 ∧
+    ∃ pad : Nat, (Impl.delaunayNeighbors indptr indices n).1.getD k []
+        = (((indices.drop (indptr.getD k 0)).take (indptr.getD (k + 1) 0 - indptr.getD k 0)).map
+            Int.ofNat) ++ List.replicate pad (-1) :=
+  delaunayNeighbors_row indptr indices n k hk
+
+/-- (f7) hence, under Qhull's contract (the CSR slice of k lists exactly the vertices sharing a simplex
+    with k), the used part of row k of `Mesh2DDelaunay.neighbors` contains j iff j and k share a
+    simplex (an edge of the triangulation), and the published relation is symmetric. -/
+theorem delaunay_neighbors_adjacency (indptr indices : List Nat) (n : Nat)
+    (simplices : List (List Nat))
+    (hfull : ∀ k < n, (csrSlice indptr indices k).length = indptr.getD (k + 1) 0 - indptr.getD k 0)
+    (hcontract : ∀ k < n, ∀ j, j ∈ csrSlice indptr indices k ↔
+      (j < n ∧ j ≠ k ∧ ∃ s ∈ simplices, k ∈ s ∧ j ∈ s))
+    (k j : Nat) (hk : k < n) (hj : j < n) :
+    let used := fun k => ((Impl.delaunayNeighbors indptr indices n).1.getD k []).take
+      ((Impl.delaunayNeighbors indptr indices n).2.getD k 0)
+    (Int.ofNat j ∈ used k ↔ (j ≠ k ∧ ∃ s ∈ simplices, k ∈ s ∧ j ∈ s)) ∧
+    (Int.ofNat j ∈ used k ↔ Int.ofNat k ∈ used j) :=
+  delaunayNeighbors_adjacency indptr indices n simplices hfull hcontract k j hk hj
+
+/-! ## non-vacuity: concrete instances meeting the hypotheses above -/
+
+/-- `QhullLocates` is satisfiable in both branches: point 0 is the centroid-like combination
+    (1/2,1/4,1/4) of triangle 0-1-2, point 1 is unlocated. -/
+example :
+    let mesh : List (ℚ × ℚ) := [(0, 0), (4, 0), (0, 4)]
+    let grid : List (ℚ × ℚ) := [(1, 1), (9, 9)]
+    QhullLocates grid mesh [0, -1] [[0, 1, 2]] 0 ∧ QhullLocates grid mesh [0, -1] [[0, 1, 2]] 1 := by
+  refine ⟨Or.inr ⟨0, 0, 1, 2, 1/2, 1/4, 1/4, by decide, by decide, by decide, by decide, by decide,
+    by norm_num, by norm_num, by norm_num, by norm_num, ?_, ?_⟩, Or.inl (by decide)⟩
+  · simp [det3]
+  · simp [combo]
+
+
+/-- two image pixels with sub-sizes 1 and 2, a 3-pixel mesh, Delaunay-like rows (sizes 3 and 1):
+    index ranges hold, weights are ≥ 0 and sum to 1 per sub-pixel; the matrix, its row sums and the
+    unique tables are as the theorems say. -/
+example :
+    let subs := [1, 2]
+    let idx : List (List Int) := [[0, 1, 2], [2, -1, -1], [1, 2, 0], [2, -1, -1], [0, -1, -1]]
+    let sizes := [3, 1, 3, 1, 1]
+    let wts : List (List ℚ) := [[1/2, 1/4, 1/4], [1, 0, 0], [1/8, 3/8, 1/2], [1, 0, 0], [1, 0, 0]]
+    Spec.slimForSubSlim subs = [0, 1, 1, 1, 1]
+    ∧ Impl.mappingMatrix idx sizes wts 3 2 (Spec.slimForSubSlim subs) (subs.map Impl.subFraction)
+        = [[1/2, 1/4, 1/4], [3/8, 1/32, 19/32]]
+    ∧ Impl.uniqueFrom 2 idx sizes wts 3 subs
+        = ([[0, 1, 2, -1, -1, -1, -1, -1, -1, -1, -1, -1], [2, 1, 0, -1, -1, -1, -1, -1, -1, -1, -1, -1]],
+           [[1/2, 1/4, 1/4, 0, 0, 0, 0, 0, 0, 0, 0, 0], [19/32, 1/32, 3/8, 0, 0, 0, 0, 0, 0, 0, 0, 0]],
+           [3, 3]) := by
+  decide +kernel
+
+/-- a non-degenerate triangle, an interior point and the three weights (clause c);
+    the overlay of a 3×4 mesh on two points and the cell of one of them (clause d). -/
+example :
+    Impl.baryWeights ((0 : ℚ), (0 : ℚ)) (4, 0) (0, 4) (1, 1) = [1/2, 1/4, 1/4]
+    ∧ Impl.argminFirst [(5 : ℚ), 2, 7, 2] = 1
+    ∧ (Impl.overlayGrid 3 4 [((0 : ℚ), (0 : ℚ)), (1, 2)] (1/100000000)).sy = 16666667/50000000
+    ∧ Impl.gridPixelIndexes truncRat (Impl.overlayGrid 3 4 [((0 : ℚ), (0 : ℚ)), (1, 2)] (1/100000000))
+        [((0 : ℚ), (0 : ℚ)), (1, 2)] = [8, 3] := by
+  decide +kernel
+
+/-- a mask with a masked pixel and sub-sizes 2,1 (clause a'); neighbour tables (clause f). -/
+example :
+    Impl.slimForSubSlim ⟨1, 3, [false, true, false]⟩ [2, 1] = [0, 0, 0, 0, 1]
+    ∧ Impl.rectNeighbors 3 3 = Spec.rectNeighbors 3 3
+    ∧ (Impl.rectNeighbors 3 3).1.getD 4 [] = [1, 3, 5, 7]
+    ∧ Spec.neighborsFromSimplices 4 [[0, 1, 2], [1, 2, 3]] = [[1, 2], [0, 2, 3], [0, 1, 3], [1, 2]]
+    ∧ Impl.delaunayNeighbors [0, 2, 5, 8, 10] [1, 2, 0, 2, 3, 0, 1, 3, 1, 2] 4
+        = ([[1, 2, -1], [0, 2, 3], [0, 1, 3], [1, 2, -1]], [2, 3, 3, 2]) := by
+  decide +kernel
 
 end C06
